@@ -540,6 +540,55 @@ def omp_region_cases():
     return cases
 
 
+ROUTES = {
+    0: "the comma expression passed to embed() as it is",
+    1: "copy construction: ParametersSet q(ps); embed(.., q)",
+    2: "copy assignment into a fresh set: ParametersSet q; q = ps; embed(.., q)",
+    3: "copy assignment into a variable that held another (duplicate-free) expression before",
+    4: "copy assignment into a variable that held an expression with a keyword given twice before",
+    5: "copy assignment followed by self-assignment: q = ps; q = q;",
+    6: "kwargs[ps]",
+    7: "the chain interface: with(ps).withKernel(k).withDistance(d).withFeatures(f).embedRange(begin, end)",
+    8: "the receiver of merge(): ParametersSet q(ps); q.merge(ps); q.merge(ParametersSet());",
+    9: "std::move construction, then std::move assignment into a variable that held a duplicate before",
+    10: "a std::vector<ParametersSet> element overwritten by erase() of the element before it",
+}
+
+
+def route_cases(rng, quick):
+    """wave 4: every C++ route a set can take from the comma expression to tapkee::embed (ROUTES) x every method x
+    {accepted, a duplicate at the end, a duplicate at a random pair of positions, a triple} + per route a wrong type, a
+    value out of range, a missing method, a cancel function returning true, no data, no callbacks.  The expectation
+    is the one of the comma expression itself: the route must not matter."""
+    cases = []
+    for route in range(1, 11):
+        for m in range(N_METHODS):
+            b = baseline(m, 8)
+            extra = []
+            for kw in rng.sample([k for k in range(22) if k not in (KW_METHOD, 19, 17, 18)], rng.randint(1, 3)):
+                if kw not in [k[0] for k in b]:
+                    extra.append(P(kw, *random_value(rng, kw, 8)))
+            kws = b + extra
+            rng.shuffle(kws)
+            variants = [kws, kws + [list(kws[0])]]
+            d = list(kws[rng.randrange(len(kws))])
+            pos = rng.randrange(len(kws) + 1)
+            variants.append(kws[:pos] + [d] + kws[pos:])
+            if not quick or (m + route) % 3 == 0:
+                variants.append([list(kws[0])] + kws + [list(kws[0])])
+            for v in variants:
+                cases.append({"N": 8, "mask": 7, "kws": v, "gen": "route", "route": route})
+        b = baseline((route * 7) % N_METHODS, 8)
+        for kws, N, mask in [(b + [P(KW_K, "S", hexf(4.0))], 8, 7), (b + [P(KW_TD, "I", 0)], 8, 7),
+                             ([P(KW_K, "I", 4)], 8, 7), (b + [P(18, "X", 2)], 8, 7), (b, 0, 7), (b, 8, 0),
+                             (b + [P(18, "X", 1), P(17, "P", 1)], 8, 7)]:
+            cases.append({"N": N, "mask": mask, "kws": kws, "gen": "route", "route": route})
+    if not quick:
+        for c in random_cases(rng, 1500) + duplicate_cases(rng, True):
+            cases.append(dict(c, gen="route", route=rng.randrange(1, 11)))
+    return cases
+
+
 def random_value(rng, kw, N, valid=True):
     ty = KW_TYPES[kw]
     if ty == "I":
@@ -691,7 +740,8 @@ def impl_line(case):
                         [str(a) for a in case["args"]] + [str(case["value"])])
     # bit0 stop at the first features vector() call; bits 1-2 (wave 3): call from inside an application's own
     # `#pragma omp parallel` region (2), with nested parallelism on (6)
-    flags = stopf_of(case) | {0: 0, 1: 2, 2: 6}[case.get("omp", 0)]
+    # bits 3-6 (wave 4): the C++ route the set takes from the comma expression to embed() (ROUTES)
+    flags = stopf_of(case) | {0: 0, 1: 2, 2: 6}[case.get("omp", 0)] | (int(case.get("route", 0)) << 3)
     parts = ["R", str(case["N"]), str(case["mask"]), str(flags), str(len(case["kws"]))]
     for kw, ty, v in case["kws"]:
         parts += [str(kw), ty, str(v)]
@@ -699,7 +749,10 @@ def impl_line(case):
 
 
 def model_line(case, old=False):
-    parts = ["R", str(case["N"]), str(FEATURE_DIM), str(case["mask"]), "1" if old else "0", str(len(case["kws"]))]
+    # field 4: bit0 = the stage order before repair F27; the rest = the route number (the generated copy constructor
+    # and operator= are interpreted along the route: Validate_Model.exec_via)
+    parts = ["R", str(case["N"]), str(FEATURE_DIM), str(case["mask"]), str((1 if old else 0) + 2 * int(case.get("route", 0))),
+             str(len(case["kws"]))]
     for kw, ty, v in case["kws"]:
         if ty == "S":
             f = exactify(case, kw, v)
@@ -859,6 +912,11 @@ def record_mismatch(ctx, stats, shown, detail):
         ctx.mismatch(shown, detail)
 
 
+def via(case):
+    r = case.get("route", 0)
+    return " [the set reached embed() by route %d: %s]" % (r, ROUTES.get(r, "?")) if r else ""
+
+
 def judge(ctx, case, io, mo, stats):
     """verdict logic for one case; returns True if a VIOLATION was recorded"""
     if io["outcome"] == "not-run":
@@ -867,6 +925,11 @@ def judge(ctx, case, io, mo, stats):
     cnt = io["cnt"]
     spec = mo["spec"]
     shown = dict(case, impl=io["outcome"], counters=cnt)
+    if case.get("route"):
+        shown["route_is"] = ROUTES.get(case["route"], "?")
+    if mo["outcome"] == "stuck":
+        record_mismatch(ctx, stats, shown, "the generated copy constructor / operator= / merge give the model no set to run "
+                        "embed() on along this route")
     # wave 3: on the deciding doubles of a computed bound the documented verdict comes from Coq's primitive floats; the
     # exact specification (fed through exactify) must say the same, or the two readings of the documentation differ
     f64 = case.get("f64")
@@ -881,12 +944,12 @@ def judge(ctx, case, io, mo, stats):
     if spec != "none":
         if ci != spec or cnt["k"] != 0 or cnt["d"] != 0:
             ctx.violation(shown, "documented outcome %s before any kernel/distance evaluation, but tapkee::embed gave "
-                          "%s with kernel calls=%d distance calls=%d" % (spec, io["outcome"], cnt["k"], cnt["d"]))
+                          "%s with kernel calls=%d distance calls=%d%s" % (spec, io["outcome"], cnt["k"], cnt["d"], via(case)))
             return True
     else:
         if ci in VALIDATION_EXC:
             ctx.violation(shown, "every documented clause holds (values on the valid side, callbacks supplied), "
-                          "but tapkee::embed threw " + io["outcome"])
+                          "but tapkee::embed threw " + io["outcome"] + via(case))
             return True
         if io["outcome"].startswith(("crash", "timeout")) and cnt["k"] + cnt["d"] + cnt["fv"] == 0:
             ctx.violation(shown, "a request the documentation accepts made tapkee::embed %s before any callback "
@@ -910,7 +973,7 @@ def judge(ctx, case, io, mo, stats):
                 if spec == "wrong_parameter_type":
                     continue           # checkTypes throws before the echo of the merged set
                 ctx.violation(shown, "effective value of '%s' echoed by the library is %r, documented "
-                              "(explicit value, else default) is %r" % (KW_NAMES[kw], got, want))
+                              "(explicit value, else default) is %r%s" % (KW_NAMES[kw], got, want, via(case)))
                 return True
         stats["echo_checked"] = stats.get("echo_checked", 0) + 1
     # 2. model against implementation
@@ -919,7 +982,7 @@ def judge(ctx, case, io, mo, stats):
                         "%d" % (cnt["cn"], mo["trace"].count("cn")))
         return False
     em = expected_from_model(mo, stopf_of(case))
-    if em != ci:
+    if em != ci and mo["outcome"] != "stuck":
         record_mismatch(ctx, stats, shown, "model of the generated tables says %s (trace %s), tapkee::embed gave %s" % (
             em, ",".join(mo["trace"]), io["outcome"]))
     return False
@@ -949,6 +1012,7 @@ def evaluate(ctx, exe, mexe, cases, stats, env=None):
 
 
 # ----------------------------------------------------------------------------- wave 2: structural probes
+PROBE_ROUTES = [1, 2, 3, 4, 5, 6, 8, 9, 10]
 PROBE_VALUES = {"I": [3, 4, 7], "S": [hexf(0.5), hexf(4.0), hexf(0.25)], "B": [0, 1], "M": [5, 12, 0]}
 
 
@@ -1152,7 +1216,12 @@ def derived_requests(c):
         kws = [list(k) for k in c["A"]]
         if not any(k[0] == KW_METHOD for k in kws):
             kws.append(P(KW_METHOD, "M", 5))
-        return [{"N": 8, "mask": 7, "kws": kws, "gen": "derived_from_probe"}]
+        out = [{"N": 8, "mask": 7, "kws": kws, "gen": "derived_from_probe"}]
+        if c.get("route_deviates"):
+            out = [dict(o, route=c["route_deviates"]) for o in out] + \
+                  [{"N": 8, "mask": 7, "kws": [P(KW_METHOD, "M", 16), P(KW_TD, "I", 2)], "gen": "derived_from_probe",
+                    "route": c["route_deviates"]}]
+        return out
     if c["kind"] == "pred" and not c["args"]:
         if c["ty"] == "S":
             kw, m = (7, 10) if c["pred"] == 0 else (16, 17)     # width > 0 (LaplacianEigenmaps), FA epsilon >= 0
@@ -1228,6 +1297,16 @@ def judge_probe(c, io, ml, stats):
                         break
                 if why is None and e.get("dupg") != doc["dup"]:
                     why = "merge() changed the duplicate list"
+                # wave 4: the set after every route (copy construction, the assignments, kwargs[], merge receiver, moves, a
+                # vector slot): same duplicate verdict, same map
+                for r in PROBE_ROUTES:
+                    if why is None and e.get("rt%d" % r) != doc["dup"] + "1":
+                        g = e.get("rt%d" % r) or "??"
+                        why = "after route %d (%s) check() %s and the map %s; documented: check() %s, the map of the " \
+                              "expression" % (r, ROUTES[r], "throws" if g[:1] == "1" else "passes",
+                                              "is the one of the expression" if g[1:2] == "1" else "differs",
+                                              "throws" if doc["dup"] == "1" else "passes")
+                        c["route_deviates"] = r
                 if why is None:
                     head = dict(w.split("=") for w in f[0].split())
                     mod = {"dup": head.get("dup"), "ct": head.get("ct"), "map": model_map(f[1]), "merged": model_map(f[2]),
@@ -1237,6 +1316,10 @@ def judge_probe(c, io, ml, stats):
                     for key in ("dup", "ct", "map", "merged", "look"):
                         if why is None and mod[key] != got[key]:
                             why = "generated bodies of parameter.hpp give %s = %s, the library %s" % (key, mod[key], got[key])
+                    for r in PROBE_ROUTES:
+                        if why is None and head.get("rt%d" % r) != e.get("rt%d" % r):
+                            why = "generated copy constructor / operator= give %s after route %d, the library %s" % (
+                                head.get("rt%d" % r), r, e.get("rt%d" % r))
     return why
 
 
@@ -1261,6 +1344,7 @@ def build_cases(ctx, doc, gen, rng, quick, ftab=None):
         cases += float_bound_cases(ftab, range(3, (300 if quick else 4096) + 1))
     cases += explicit_default_cases(doc)
     cases += omp_region_cases()
+    cases += route_cases(rng, quick)
     cases += callback_cases()
     cases += wrong_type_cases(rng, quick)
     cases += duplicate_cases(rng, quick)
@@ -1356,7 +1440,8 @@ def run(ctx):
     for c in cases:
         if c["kws"] and c["N"] > 0:
             distinct.add(hashlib.sha1(json.dumps([c["N"], c["mask"], c["kws"], c.get("omp", 0),
-                                                  c["gen"] == "omp_region_thread_limit"]).encode()).hexdigest())
+                                                  c["gen"] == "omp_region_thread_limit"] +
+                                                 ([c["route"]] if c.get("route") else [])).encode()).hexdigest())
         if "cell" in c:
             cellset.add(tuple(c["cell"]))
     for c in probes:
@@ -1387,7 +1472,7 @@ def run(ctx):
              "request that leaves it unset; omp_region = 9 request kinds per method made from inside an application's "
              "own `#pragma omp parallel num_threads(3)` region by every thread at once (nested parallelism off / on), "
              "and once more with OMP_THREAD_LIMIT=2 below OMP_NUM_THREADS=4: every thread must get the serial outcome.",
-        samples=[{k: c[k] for k in ("N", "mask", "kws", "gen")} for c in cases[:3] + cases[len(cases) // 2:len(cases) // 2 + 3]],
+        samples=[{k: c[k] for k in ("N", "mask", "kws", "gen", "route") if k in c} for c in cases[:3] + cases[len(cases) // 2:len(cases) // 2 + 3]],
         histogram={"generators": hist, "implementation_outcomes": stats["outcomes"],
                    "cells_covered(method,keyword,side)": len(cellset),
                    "echo_checked": stats.get("echo_checked", 0),
@@ -1424,11 +1509,14 @@ def replay(ctx, case):
         c["f64"] = case["f64"]
     if case.get("omp"):
         c["omp"] = case["omp"]
+    if case.get("route"):
+        c["route"] = int(case["route"])
     stats = {"outcomes": {}}
     io = run_impl(ctx, exe, [c])[0]
     mo = run_model(ctx, mexe, [c])[0]
     print("request        : N=%d callbacks(kernel,distance,features)=%s keywords=%s" % (
         c["N"], [bool(c["mask"] & 1), bool(c["mask"] & 2), bool(c["mask"] & 4)], c["kws"]))
+    print("route          : %d = %s" % (c.get("route", 0), ROUTES.get(c.get("route", 0), "?")))
     print("tapkee::embed  : %s  counters %s" % (io["outcome"], io["cnt"]))
     print("documented     : %s" % mo["spec"])
     print("model (tables) : %s  trace %s" % (mo["outcome"], ",".join(mo["trace"])))
